@@ -11,6 +11,7 @@
 import Frrs.Pipeline
 import Frrs.Extracted
 import Frrs.Filter
+import Frrs.Proofs.Cli
 namespace Frrs.C11
 open Frrs Frrs.Pipe
 set_option linter.unusedSimpArgs false
@@ -49,5 +50,17 @@ theorem preview_is_a_function (o : FOpts) (inp : Bytes) :
   fun _ _ => rfl
 
 example : (execUnder Extracted.returnsEarlyOnDryRun true Extracted.finalizeEvents).length < Extracted.finalizeEvents.length := by decide +kernel
+
+
+/-! ### the flag itself (model of `parse_args`, Frrs/Cli.lean) -/
+
+/-- once `--dry-run` was read, nothing later on the line makes the run a real one -/
+theorem dry_run_is_sticky (badRegex args : List Bytes) (s o : Cli.CliOpts)
+    (h : Cli.loop badRegex args s = .ok o) (hs : s.dryRun = true) : o.dryRun = true :=
+  Cli.dryRun_sticky badRegex args s o h hs
+
+/-- the clean-up that a full run gets by default is never added to a dry run -/
+theorem dry_run_gets_no_default_cleanup (s : Cli.CliOpts) (h : s.dryRun = true) : Cli.defaultCleanup s = s := by
+  unfold Cli.defaultCleanup; simp [h]
 
 end Frrs.C11
